@@ -32,6 +32,7 @@ def check(run) -> None:
     if quick:
         rt = random.Random(run.seed).sample(rt, 500)
     snips += rt
+    snips += langgen.type_label_snippets()
     # value-dependent expressions whose arm (and with it the type the new name needs) is selected by a routed value
     snips += [s for s in langgen.fold_snippets() if s["site"] in ("assign", "select-type", "select-arm", "minmax")]
     byid, singles = {}, []
